@@ -146,17 +146,6 @@ def onCheck (s : St) (rest : String) : St := Id.run do
     s := s.report "spec" "C01,C06" "attacked-squares" s!"impl=[{rest}] spec=[{hex (att .black)} {hex (att .white)}]"
   return s
 
-/-- mirror of a model board: ranks flipped, colours and side to move swapped -/
-def bswap (x : BB) : BB :=
-  (List.range 8).foldl (fun acc i => acc ||| (((x >>> (8 * i).toUInt64) &&& 0xFF) <<< (8 * (7 - i)).toUInt64)) 0
-
-def mirrorBoard (b : Board) : Board :=
-  let p := b.bbs
-  let q : PBB := { wp := bswap p.bp, wk := bswap p.bk, wq := bswap p.bq, wr := bswap p.br, wb := bswap p.bb, wn := bswap p.bn,
-                   bp := bswap p.wp, bk := bswap p.wk, bq := bswap p.wq, br := bswap p.wr, bb := bswap p.wb, bn := bswap p.wn,
-                   white := bswap p.black, black := bswap p.white, all := bswap p.all }
-  { b with bbs := q, turn := b.turn.opp }
-
 def onKey (s : St) (rest : String) : St := Id.run do
   let mut s := s
   let (nums, fen) := match rest.splitOn " | " with
